@@ -759,8 +759,11 @@ SPEC.theorems = ["Banyan.C18." + t for t in [
     "mergeTags_lookup", "mergeTags_order", "mergeTags_nodup", "apply_spec", "apply_response",
     "map_refinement", "modRevision_strict", "clock_tie_loses_property", "clock_skew_loses_property",
     "repair_join", "repair_monotone", "repair_never_replaces_newer_or_equal", "repair_idempotent", "repair_commutative",
+    "repair_stores_two_documents_with_one_id",
     "gossipLeaf_spec", "gossip_converges", "gossip_converges_docs",
     "dedup_spec", "dedup_spec_sorted", "dedup_spec_sorted_good",
-    "repairLegacy_resurrects", "repairLegacy_not_commutative", "repairLegacy_duplicates_id", "simpleDedupLegacy_order_dependent",
+    "repairLegacy_resurrects", "repairLegacy_not_commutative", "dup_and_lookup_limit_lose_a_delete",
+    "simpleDedupLegacy_order_dependent",
 ]] + ["Banyan.Tie.C18." + t for t in [
-    "gossip_limit_tie", "repair_limit_tie", "query_limit_tie", "repair_tiebreak_tie", "repair_skip_tie", "liaison_order_tie", "doc_id_tie"]]
+    "gossip_limit_tie", "repair_limit_tie", "query_limit_tie", "repair_tiebreak_tie", "repair_skip_tie", "liaison_order_tie",
+    "delete_lookup_tie", "doc_id_tie"]]
